@@ -343,11 +343,16 @@ func (s *srvConn) serve(cfg *negCfg, r *negRec) {
 					r.AuthPayload = u.raw[i+1 : j]
 				}
 			}
-			a := cfg.pick("auth", "success", "failure", "stream-error", "unexpected", "malformed", "truncated", "close", "success-pipelined")
-			r.answer("auth", a, a == "success" || a == "success-pipelined")
+			a := cfg.pick("auth", "success", "failure", "stream-error", "unexpected", "malformed", "truncated", "close", "success-pipelined", "success-with-data")
+			r.answer("auth", a, strings.HasPrefix(a, "success"))
 			switch a {
-			case "success":
-				s.send("<success xmlns='" + nsSASL + "'/>")
+			case "success", "success-with-data":
+				if a == "success" {
+					s.send("<success xmlns='" + nsSASL + "'/>")
+				} else {
+					// additional data with success (RFC 6120 6.4.6): "=" stands for zero-length data
+					s.send("<success xmlns='" + nsSASL + "'>=</success>")
+				}
 				r.AuthOK = true
 				r.phase = "authed"
 				needOpen = true
